@@ -28,6 +28,8 @@ CANNOT_RAISE_METHODS = {"is_closing", "is_closed", "is_set", "done", "cancelled"
 
 # repo callables (by qualname suffix) that are known not to raise: simple predicates / setters
 REPO_CANNOT_RAISE = {
+    "lowlevel._lock:ForkSafeLock.__init__",
+    "lowlevel.socket:SocketProxy.__init__",
     "lowlevel.api_async.backend.abc:IEvent.set",
     "lowlevel.api_async.backend.abc:IEvent.is_set",
     "lowlevel.api_async.backend.abc:CancelScope.cancel",
